@@ -112,7 +112,14 @@ static std::string firstRepoFrameOf(const std::string &addrs) {
     std::string loc;
     if (pp) {
         char fb[2048], lb[2048];
-        while (fgets(fb, sizeof fb, pp) && fgets(lb, sizeof lb, pp)) { std::string file = repoFile(lb); if (!file.empty() && loc.empty()) loc = file + ":" + sigFunc(fb); }
+        // the FILE is that of the innermost /repo frame; the FUNCTION is the outermost of the consecutive frames in that file
+        // (the entry into the file): extracting a few lines into a helper inside the file does not rename the signature
+        std::string f0; bool closed = false;
+        while (fgets(fb, sizeof fb, pp) && fgets(lb, sizeof lb, pp)) {
+            std::string file = repoFile(lb);
+            if (f0.empty()) { if (!file.empty()) { f0 = file; loc = file + ":" + sigFunc(fb); } }
+            else if (!closed) { if (file == f0) loc = file + ":" + sigFunc(fb); else closed = true; }
+        }
         pclose(pp);
     }
     return loc;
@@ -134,7 +141,14 @@ static void parseSanitizer(const std::string &err, Json &res, bool thrownAssert)
         j.set("session", -1); j.set("op", -1);
         v.push(j);
     };
-    std::string pendingKind, pendingDetail; int framesLeft = 0;
+    std::string pendingKind, pendingDetail, pendingLoc; int framesLeft = 0;
+    auto flushPending = [&]() {
+        if (pendingKind == "leak") {
+            if (thrownAssert) add("leak", "leak-after-assert", pendingDetail + " @" + pendingLoc);
+            else add("leak", "leak@" + pendingLoc, pendingDetail);
+        } else if (!pendingKind.empty()) add("memory", pendingKind + "@" + pendingLoc, pendingDetail);
+        pendingKind = ""; pendingLoc = "";
+    };
     while (std::getline(is, line)) {
         size_t re = line.find("runtime error:");
         if (re != std::string::npos) {
@@ -149,6 +163,7 @@ static void parseSanitizer(const std::string &err, Json &res, bool thrownAssert)
             add("ub", "UBSan:" + kind + "@" + loc, line);
             continue;
         }
+        if (!pendingLoc.empty() && (line.find("ERROR: AddressSanitizer:") != std::string::npos || line.find("leak of") != std::string::npos)) flushPending();
         if (line.find("ERROR: AddressSanitizer:") != std::string::npos) {
             size_t p = line.find("AddressSanitizer:") + 18;
             std::string k = line.substr(p);
@@ -166,16 +181,13 @@ static void parseSanitizer(const std::string &err, Json &res, bool thrownAssert)
             if (line.find("    #") != std::string::npos) {
                 framesLeft--;
                 std::string loc = repoFrameFunc(line);
-                if (!loc.empty()) {
-                    if (pendingKind == "leak") {
-                        if (thrownAssert) add("leak", "leak-after-assert", pendingDetail + " @" + loc);
-                        else add("leak", "leak@" + loc, pendingDetail);
-                    } else add("memory", pendingKind + "@" + loc, pendingDetail);
-                    pendingKind = "";
-                }
-            } else if (line.empty()) {
-                if (pendingKind.rfind("ASan:", 0) == 0) add("memory", pendingKind + "@?", pendingDetail);
-                pendingKind = "";
+                // innermost /repo frame fixes the file; keep walking outwards while the frames stay in that file (see firstRepoFrameOf)
+                if (!loc.empty() && pendingLoc.empty()) { pendingLoc = loc; continue; }
+                if (!pendingLoc.empty() && !loc.empty() && loc.substr(0, loc.find(':')) == pendingLoc.substr(0, pendingLoc.find(':'))) { pendingLoc = loc; continue; }
+                if (!pendingLoc.empty()) flushPending();
+            } else if (line.empty() || !pendingLoc.empty()) {
+                if (!pendingLoc.empty()) flushPending();
+                else { if (pendingKind.rfind("ASan:", 0) == 0) add("memory", pendingKind + "@?", pendingDetail); pendingKind = ""; }
             }
         }
         if (line.find("SIMALLOC:") != std::string::npos) {
@@ -188,6 +200,7 @@ static void parseSanitizer(const std::string &err, Json &res, bool thrownAssert)
             add("memory", kind + (loc.empty() ? "" : "@freed-at:" + loc), detail);
         }
     }
+    if (!pendingLoc.empty()) flushPending();
     if (pendingKind.rfind("ASan:", 0) == 0) add("memory", pendingKind + "@?", pendingDetail);
     res.set("violations", v);
 }
